@@ -13,6 +13,8 @@ mod service;
 mod signals;
 mod socket;
 mod test_server;
+#[cfg(actix_net_verif)]
+pub mod verif;
 mod waker_queue;
 mod worker;
 
